@@ -33,7 +33,7 @@ func verifC14Compare(stream []byte, src []int, w, h, c, p, near int, libDec func
 			parts = append(parts, fmt.Sprintf("independent_header=%dx%dx%d/P%d/NEAR%d", ind.W, ind.H, ind.NC, ind.P, ind.Near))
 		}
 		if src != nil {
-			if i := verifFirstDiff(src, ind.Samples); i >= 0 {
+			if i := verifJlsFirstDiff(src, ind.Samples); i >= 0 {
 				parts = append(parts, fmt.Sprintf("independent_vs_source_first_diff=%d(src=%d,ind=%d)", i, src[i], ind.Samples[i]))
 			}
 		}
@@ -41,7 +41,7 @@ func verifC14Compare(stream []byte, src []int, w, h, c, p, near int, libDec func
 	if lerr != "" {
 		parts = append(parts, "library_"+lerr)
 	} else if ierr == nil {
-		if i := verifFirstDiff(lib, ind.Samples); i >= 0 {
+		if i := verifJlsFirstDiff(lib, ind.Samples); i >= 0 {
 			parts = append(parts, fmt.Sprintf("independent_vs_library_first_diff=%d(lib=%d,ind=%d)", i, lib[i], ind.Samples[i]))
 		}
 	}
@@ -63,7 +63,7 @@ func verifC14NearDec(w, h, c, p, near int) func([]byte) ([]int, string) {
 		if dw != w || dh != h || dc != c || dp != p || dn != near {
 			return nil, fmt.Sprintf("geometry=%dx%dx%d/P%d/NEAR%d", dw, dh, dc, dp, dn)
 		}
-		got, ok := verifUnpack(out, p, w*h*c)
+		got, ok := verifJlsUnpack(out, p, w*h*c)
 		if !ok {
 			return nil, fmt.Sprintf("decoded_len=%d", len(out))
 		}
@@ -86,7 +86,7 @@ func verifC14LosslessDec(w, h, c, p int) func([]byte) ([]int, string) {
 		if dw != w || dh != h || dc != c || dp != p {
 			return nil, fmt.Sprintf("geometry=%dx%dx%d/P%d", dw, dh, dc, dp)
 		}
-		got, ok := verifUnpack(out, p, w*h*c)
+		got, ok := verifJlsUnpack(out, p, w*h*c)
 		if !ok {
 			return nil, fmt.Sprintf("decoded_len=%d", len(out))
 		}
@@ -100,7 +100,7 @@ func verifC14EncodeNear(src []int, w, h, c, p, near int) (stream []byte, why str
 			stream, why = nil, fmt.Sprintf("near_encode_panic=%q", fmt.Sprint(x))
 		}
 	}()
-	stream, err := Encode(verifPack(src, p), w, h, c, p, near)
+	stream, err := Encode(verifJlsPack(src, p), w, h, c, p, near)
 	if err != nil {
 		return nil, fmt.Sprintf("near_encode_err=%q", err.Error())
 	}
@@ -113,7 +113,7 @@ func verifC14EncodeLossless(src []int, w, h, c, p int) (stream []byte, why strin
 			stream, why = nil, fmt.Sprintf("lossless_encode_panic=%q", fmt.Sprint(x))
 		}
 	}()
-	stream, err := lossless.Encode(verifPack(src, p), w, h, c, p)
+	stream, err := lossless.Encode(verifJlsPack(src, p), w, h, c, p)
 	if err != nil {
 		return nil, fmt.Sprintf("lossless_encode_err=%q", err.Error())
 	}
@@ -161,14 +161,14 @@ func (cc *verifC14Counts) String() string {
 	return strings.Join(ks, ",")
 }
 
-var verifC14Kinds = append(append([]string{}, verifContentKinds...), "nearedges", "nearramp", "nearjitter")
+var verifC14Kinds = append(append([]string{}, verifJlsContentKinds...), "nearedges", "nearramp", "nearjitter")
 
 type verifC14Size struct{ w, h int }
 
 func verifC14Sizes() ([]verifC14Size, int, string) {
 	sizes := []verifC14Size{{1, 1}, {2, 2}, {4, 3}, {9, 7}, {16, 16}, {33, 5}, {1, 17}, {40, 40}}
 	reps := 2
-	if verifThorough() {
+	if verifJlsThorough() {
 		sizes = append(sizes, verifC14Size{64, 64}, verifC14Size{300, 3}, verifC14Size{128, 40})
 		reps = 8
 	}
@@ -181,9 +181,9 @@ func verifC14Sizes() ([]verifC14Size, int, string) {
 
 func TestVerif_C14_IndependentDecoderNearLossless(t *testing.T) {
 	sizes, reps, sz := verifC14Sizes()
-	rep := verifNewReport(t, "TestVerif_C14_IndependentDecoderNearLossless", fmt.Sprintf(
+	rep := verifJlsNewReport(t, "TestVerif_C14_IndependentDecoderNearLossless", fmt.Sprintf(
 		"stream=nearlossless.Encode(img,NEAR); independent T.87 decoder(stream)==nearlossless.Decode(stream) (and ==img for NEAR=0); P in 2..16 x NEAR in {0,1,2,3,7,min(255,MAXVAL/2)} x components {1 (ILV=0),3 (ILV=2)} x WxH {%s} x contents {%s} x %d seeded variants (seed %d)",
-		sz, strings.Join(verifC14Kinds, ","), reps, verifSeed()))
+		sz, strings.Join(verifC14Kinds, ","), reps, verifJlsSeed()))
 	var cc verifC14Counts
 	thrDiffFails, thrSameFails := 0, 0
 	for p := 2; p <= 16; p++ {
@@ -196,8 +196,8 @@ func TestVerif_C14_IndependentDecoderNearLossless(t *testing.T) {
 				for _, s := range sizes {
 					for _, kind := range verifC14Kinds {
 						for v := 0; v < reps; v++ {
-							r := verifNewRNG(fmt.Sprintf("c14n/%d/%d/%d/%dx%d/%s/%d", p, near, c, s.w, s.h, kind, v))
-							src := verifGenImage(kind, s.w, s.h, c, p, near, r)
+							r := verifJlsNewRNG(fmt.Sprintf("c14n/%d/%d/%d/%dx%d/%s/%d", p, near, c, s.w, s.h, kind, v))
+							src := verifJlsGenImage(kind, s.w, s.h, c, p, near, r)
 							rep.cases++
 							stream, why := verifC14EncodeNear(src, s.w, s.h, c, p, near)
 							if why == "" {
@@ -215,7 +215,7 @@ func TestVerif_C14_IndependentDecoderNearLossless(t *testing.T) {
 									thrSameFails++
 								}
 								rep.fail("P=%d near=%d comps=%d w=%d h=%d kind=%s variant=%d default_thresholds_differ=%v lib_T=%d/%d/%d std_T=%d/%d/%d %s src=%s",
-									p, near, c, s.w, s.h, kind, v, thrDiffer, cp.T1, cp.T2, cp.T3, s1, s2, s3, why, verifFmtSamples(src))
+									p, near, c, s.w, s.h, kind, v, thrDiffer, cp.T1, cp.T2, cp.T3, s1, s2, s3, why, verifJlsFmtSamples(src))
 							}
 						}
 					}
@@ -235,16 +235,16 @@ func TestVerif_C14_IndependentDecoderEveryNear(t *testing.T) {
 		w, h int
 	}
 	imgs := []img{{"noise", 9, 5}, {"nearjitter", 11, 3}, {"gradient", 12, 4}}
-	if verifThorough() {
+	if verifJlsThorough() {
 		imgs = append(imgs, img{"runs", 40, 6}, img{"noise", 32, 32}, img{"nearramp", 20, 5})
 	}
 	var names []string
 	for _, im := range imgs {
 		names = append(names, fmt.Sprintf("%s %dx%d", im.kind, im.w, im.h))
 	}
-	rep := verifNewReport(t, "TestVerif_C14_IndependentDecoderEveryNear", fmt.Sprintf(
+	rep := verifJlsNewReport(t, "TestVerif_C14_IndependentDecoderEveryNear", fmt.Sprintf(
 		"independent T.87 decoder(nearlossless.Encode(img,NEAR))==nearlossless.Decode(...) (==img for NEAR=0); every P in 2..16 x EVERY NEAR in 0..min(255,MAXVAL/2) x components {1,3} x images {%s} (seed %d)",
-		strings.Join(names, "; "), verifSeed()))
+		strings.Join(names, "; "), verifJlsSeed()))
 	thrDiffFails, thrSameFails := 0, 0
 	pairsFailing := map[string]bool{}
 	var perP [17]int
@@ -261,8 +261,8 @@ func TestVerif_C14_IndependentDecoderEveryNear(t *testing.T) {
 			thrDiffer := cp.T1 != s1 || cp.T2 != s2 || cp.T3 != s3
 			for _, c := range []int{1, 3} {
 				for _, im := range imgs {
-					r := verifNewRNG(fmt.Sprintf("c14e/%d/%d/%d/%s", p, near, c, im.kind))
-					src := verifGenImage(im.kind, im.w, im.h, c, p, near, r)
+					r := verifJlsNewRNG(fmt.Sprintf("c14e/%d/%d/%d/%s", p, near, c, im.kind))
+					src := verifJlsGenImage(im.kind, im.w, im.h, c, p, near, r)
 					rep.cases++
 					stream, why := verifC14EncodeNear(src, im.w, im.h, c, p, near)
 					if why == "" {
@@ -287,7 +287,7 @@ func TestVerif_C14_IndependentDecoderEveryNear(t *testing.T) {
 							}
 						}
 						rep.fail("P=%d near=%d comps=%d w=%d h=%d kind=%s default_thresholds_differ=%v lib_T=%d/%d/%d std_T=%d/%d/%d %s src=%s",
-							p, near, c, im.w, im.h, im.kind, thrDiffer, cp.T1, cp.T2, cp.T3, s1, s2, s3, why, verifFmtSamples(src))
+							p, near, c, im.w, im.h, im.kind, thrDiffer, cp.T1, cp.T2, cp.T3, s1, s2, s3, why, verifJlsFmtSamples(src))
 					}
 				}
 			}
@@ -308,17 +308,17 @@ func TestVerif_C14_IndependentDecoderEveryNear(t *testing.T) {
 
 func TestVerif_C14_LosslessEqualsNear0Bytes(t *testing.T) {
 	sizes, reps, sz := verifC14Sizes()
-	rep := verifNewReport(t, "TestVerif_C14_LosslessEqualsNear0Bytes", fmt.Sprintf(
+	rep := verifJlsNewReport(t, "TestVerif_C14_LosslessEqualsNear0Bytes", fmt.Sprintf(
 		"bytes.Equal(lossless.Encode(img), nearlossless.Encode(img,NEAR=0)); P in 2..16 x components {1,3} x WxH {%s} x contents {%s} x %d seeded variants (seed %d)",
-		sz, strings.Join(verifContentKinds, ","), reps, verifSeed()))
+		sz, strings.Join(verifJlsContentKinds, ","), reps, verifJlsSeed()))
 	var cc verifC14Counts
 	for p := 2; p <= 16; p++ {
 		for _, c := range []int{1, 3} {
 			for _, s := range sizes {
-				for _, kind := range verifContentKinds {
+				for _, kind := range verifJlsContentKinds {
 					for v := 0; v < reps; v++ {
-						r := verifNewRNG(fmt.Sprintf("c14b/%d/%d/%dx%d/%s/%d", p, c, s.w, s.h, kind, v))
-						src := verifGenImage(kind, s.w, s.h, c, p, 0, r)
+						r := verifJlsNewRNG(fmt.Sprintf("c14b/%d/%d/%dx%d/%s/%d", p, c, s.w, s.h, kind, v))
+						src := verifJlsGenImage(kind, s.w, s.h, c, p, 0, r)
 						rep.cases++
 						a, why := verifC14EncodeLossless(src, s.w, s.h, c, p)
 						var b []byte
@@ -337,7 +337,7 @@ func TestVerif_C14_LosslessEqualsNear0Bytes(t *testing.T) {
 						}
 						cc.add(fmt.Sprintf("P%02d", p), why != "")
 						if why != "" {
-							rep.fail("P=%d comps=%d w=%d h=%d kind=%s variant=%d %s src=%s", p, c, s.w, s.h, kind, v, why, verifFmtSamples(src))
+							rep.fail("P=%d comps=%d w=%d h=%d kind=%s variant=%d %s src=%s", p, c, s.w, s.h, kind, v, why, verifJlsFmtSamples(src))
 						}
 					}
 				}
@@ -352,17 +352,17 @@ func TestVerif_C14_LosslessEqualsNear0Bytes(t *testing.T) {
 
 func TestVerif_C14_CrossDecodeNear0(t *testing.T) {
 	sizes, reps, sz := verifC14Sizes()
-	rep := verifNewReport(t, "TestVerif_C14_CrossDecodeNear0", fmt.Sprintf(
+	rep := verifJlsNewReport(t, "TestVerif_C14_CrossDecodeNear0", fmt.Sprintf(
 		"lossless.Decode(nearlossless.Encode(img,0))==img and nearlossless.Decode(lossless.Encode(img))==img (geometry, NEAR=0 reported); P in 2..16 x components {1,3} x WxH {%s} x contents {%s} x %d seeded variants (seed %d); 2 cases per image",
-		sz, strings.Join(verifContentKinds, ","), reps, verifSeed()))
+		sz, strings.Join(verifJlsContentKinds, ","), reps, verifJlsSeed()))
 	var cc verifC14Counts
 	for p := 2; p <= 16; p++ {
 		for _, c := range []int{1, 3} {
 			for _, s := range sizes {
-				for _, kind := range verifContentKinds {
+				for _, kind := range verifJlsContentKinds {
 					for v := 0; v < reps; v++ {
-						r := verifNewRNG(fmt.Sprintf("c14x/%d/%d/%dx%d/%s/%d", p, c, s.w, s.h, kind, v))
-						src := verifGenImage(kind, s.w, s.h, c, p, 0, r)
+						r := verifJlsNewRNG(fmt.Sprintf("c14x/%d/%d/%dx%d/%s/%d", p, c, s.w, s.h, kind, v))
+						src := verifJlsGenImage(kind, s.w, s.h, c, p, 0, r)
 						// direction 1: near-lossless encoder (NEAR=0) -> lossless decoder
 						rep.cases++
 						stream, why := verifC14EncodeNear(src, s.w, s.h, c, p, 0)
@@ -370,13 +370,13 @@ func TestVerif_C14_CrossDecodeNear0(t *testing.T) {
 							got, derr := verifC14LosslessDec(s.w, s.h, c, p)(stream)
 							if derr != "" {
 								why = "lossless_" + derr
-							} else if i := verifFirstDiff(src, got); i >= 0 {
+							} else if i := verifJlsFirstDiff(src, got); i >= 0 {
 								why = fmt.Sprintf("first_diff_idx=%d want=%d got=%d", i, src[i], got[i])
 							}
 						}
 						cc.add(fmt.Sprintf("near0enc->losslessdec/P%02d", p), why != "")
 						if why != "" {
-							rep.fail("dir=near0enc->losslessdec P=%d comps=%d w=%d h=%d kind=%s variant=%d %s src=%s", p, c, s.w, s.h, kind, v, why, verifFmtSamples(src))
+							rep.fail("dir=near0enc->losslessdec P=%d comps=%d w=%d h=%d kind=%s variant=%d %s src=%s", p, c, s.w, s.h, kind, v, why, verifJlsFmtSamples(src))
 						}
 						// direction 2: lossless encoder -> near-lossless decoder
 						rep.cases++
@@ -385,13 +385,13 @@ func TestVerif_C14_CrossDecodeNear0(t *testing.T) {
 							got, derr := verifC14NearDec(s.w, s.h, c, p, 0)(stream)
 							if derr != "" {
 								why = "near_" + derr
-							} else if i := verifFirstDiff(src, got); i >= 0 {
+							} else if i := verifJlsFirstDiff(src, got); i >= 0 {
 								why = fmt.Sprintf("first_diff_idx=%d want=%d got=%d", i, src[i], got[i])
 							}
 						}
 						cc.add(fmt.Sprintf("losslessenc->neardec/P%02d", p), why != "")
 						if why != "" {
-							rep.fail("dir=losslessenc->neardec P=%d comps=%d w=%d h=%d kind=%s variant=%d %s src=%s", p, c, s.w, s.h, kind, v, why, verifFmtSamples(src))
+							rep.fail("dir=losslessenc->neardec P=%d comps=%d w=%d h=%d kind=%s variant=%d %s src=%s", p, c, s.w, s.h, kind, v, why, verifJlsFmtSamples(src))
 						}
 					}
 				}
@@ -411,9 +411,9 @@ func TestVerif_C14_CrossDecodeNearStreams(t *testing.T) {
 	type size struct{ w, h int }
 	sizes := []size{{1, 1}, {4, 3}, {16, 16}}
 	kinds := []string{"noise", "runs", "gradient", "nearjitter"}
-	rep := verifNewReport(t, "TestVerif_C14_CrossDecodeNearStreams", fmt.Sprintf(
+	rep := verifJlsNewReport(t, "TestVerif_C14_CrossDecodeNearStreams", fmt.Sprintf(
 		"lossless.Decode(s)==nearlossless.Decode(s) for s=nearlossless.Encode(img,NEAR>0); P in 2..16 x NEAR in {1,2,3,7,min(255,MAXVAL/2)} x components {1,3} x WxH {1x1,4x3,16x16} x contents {%s} (seed %d)",
-		strings.Join(kinds, ","), verifSeed()))
+		strings.Join(kinds, ","), verifJlsSeed()))
 	var cc verifC14Counts
 	for p := 2; p <= 16; p++ {
 		for _, near := range verifC14NearSet(p) {
@@ -423,8 +423,8 @@ func TestVerif_C14_CrossDecodeNearStreams(t *testing.T) {
 			for _, c := range []int{1, 3} {
 				for _, s := range sizes {
 					for _, kind := range kinds {
-						r := verifNewRNG(fmt.Sprintf("c14y/%d/%d/%d/%dx%d/%s", p, near, c, s.w, s.h, kind))
-						src := verifGenImage(kind, s.w, s.h, c, p, near, r)
+						r := verifJlsNewRNG(fmt.Sprintf("c14y/%d/%d/%d/%dx%d/%s", p, near, c, s.w, s.h, kind))
+						src := verifJlsGenImage(kind, s.w, s.h, c, p, near, r)
 						rep.cases++
 						stream, why := verifC14EncodeNear(src, s.w, s.h, c, p, near)
 						if why == "" {
@@ -436,14 +436,14 @@ func TestVerif_C14_CrossDecodeNearStreams(t *testing.T) {
 							case lerr != "":
 								why = "lossless_" + lerr
 							default:
-								if i := verifFirstDiff(ref, got); i >= 0 {
+								if i := verifJlsFirstDiff(ref, got); i >= 0 {
 									why = fmt.Sprintf("first_diff_idx=%d neardec=%d losslessdec=%d src=%d", i, ref[i], got[i], src[i])
 								}
 							}
 						}
 						cc.add(fmt.Sprintf("P%02d", p), why != "")
 						if why != "" {
-							rep.fail("P=%d near=%d comps=%d w=%d h=%d kind=%s %s src=%s", p, near, c, s.w, s.h, kind, why, verifFmtSamples(src))
+							rep.fail("P=%d near=%d comps=%d w=%d h=%d kind=%s %s src=%s", p, near, c, s.w, s.h, kind, why, verifJlsFmtSamples(src))
 						}
 					}
 				}
